@@ -71,7 +71,7 @@ impl<'a> Session<'a> {
         Session { rib: None, out, stats: Stats::new(), alive: false, thr: 4096, need: 0, shapes: HashSet::new() }
     }
     fn panic_event(&mut self, during: &str, msg: &str) {
-        self.out.line(&format!("{{\"op\":\"panic\",\"during\":{},\"msg\":{}}}", jstr(during), jstr(msg)));
+        self.out.line(&format!("{{\"op\":\"panic\",\"where\":\"ribbon\",\"during\":{},\"msg\":{}}}", jstr(during), jstr(msg)));
         self.stats.add("panics", 1);
         self.alive = false;
         self.rib = None;
@@ -177,6 +177,21 @@ impl<'a> Session<'a> {
 
 /// presses around the capture length, short taps back to back, glitches, long presses
 pub fn drive_press(s: &mut Session, rng: &mut Rng, thorough: bool) {
+    // one very long uninterrupted press (more than 2^16 samples) with a moving finger
+    {
+        s.start(2000, 0);
+        let thr = s.thr;
+        let n = 70_000usize;
+        for i in 0..n {
+            let code = ((i / 3) % (thr as usize - 1)) as u32;
+            s.poll(code);
+            if i % 9973 == 0 {
+                s.jp();
+            }
+        }
+        s.lift(rng, 2, 0);
+        s.jr();
+    }
     for (fi, &fs) in RATES.iter().enumerate() {
         let big = fs >= 22050;
         let reps = if thorough { if big { 3 } else { 10 } } else if big { 1 } else { 3 };
